@@ -40,7 +40,7 @@ T = {
          "round trips for every decimal of the product, every short JSON document over the numeric alphabet, every integer/float token width"),
  "C18": ("exhaustive enumeration of 10^k, 10^k+-1 for k<=5000 and a small-scope product x every accessor",
          "stored pair returned verbatim, digit counts equal string lengths, normalized form canonical"),
- "C19": ("explicit-state model checking (stateright BFS) of the accumulator state graph; transitions call the real operator overloads",
+ "C19": ("explicit-state model checking: level-synchronous parallel BFS over accumulator representations with exact state merging; every transition calls a real operator overload",
          "every program up to the depth bound over the operand pool and operation alphabet; invariant (accumulator = shadow exact value, comparisons/hashes agree) evaluated in every reachable state"),
  "C20": ("exhaustive enumeration of build configurations (crate rebuilt per configuration) x small-scope probe",
          "every configuration of the stated lattice is built and probed: default-context operations equal explicit-context ones"),
@@ -72,7 +72,7 @@ m = {
  "hooks": {"guard": "none", "enable": "not needed: every mechanism is reachable through the public API and every state is constructible with BigDecimal::new; checks build /repo's working tree as a path dependency",
            "baseline_off_cmd": BASE, "source_commits": [], "add_only": True},
  "engines": [{"name": "mc", "path": "mc/", "serves_properties": [c["property_id"] for c in checks],
-              "kind_free_text": "Rust harness: sharded bounded-exhaustive enumeration of public-API executions of the real crate (path dependency on /repo) against an independent exact-integer reference model; stateright BFS for operation sequences (C19); per-configuration rebuilds (C20)"}],
+              "kind_free_text": "Rust harness: sharded bounded-exhaustive enumeration of public-API executions of the real crate (path dependency on /repo) against an independent exact-integer reference model; explicit-state BFS over accumulator states for operation sequences (C19); per-configuration rebuilds (C20)"}],
  "checks": checks,
  "not_applicable": na,
  "notes": "See DESIGN.md. known_findings.json lists genuine defects recorded or fixed; replays/ holds one JSON file per reported violation.",
